@@ -98,7 +98,7 @@ func (g *gen) mk(depth int, iterVars []string) *node {
 	case 6:
 		// an expression over an iteration variable; on the iterated role itself only rarely (known finding)
 		if len(iterVars) > 0 && (nd.List == "" || c.W(15, "enabled-on-iterated-role") == 14) {
-			nd.Enabled = "it:" + iterVars[c.W(len(iterVars), "enabled-var")]
+			nd.Enabled = []string{"it:", "it2:"}[c.W(2, "one-or-two-elements")] + iterVars[c.W(len(iterVars), "enabled-var")]
 		}
 	}
 	if nd.List != "" && strings.HasPrefix(nd.Enabled, "flag:") && c.W(15, "flag-on-iterated-role") != 14 {
@@ -134,6 +134,9 @@ func yamlNode(b *strings.Builder, nd *node, ind string) {
 		fmt.Fprintf(b, "%senabled: \"{{ %s }}\"\n", in, strings.TrimPrefix(nd.Enabled, "flag:"))
 	case strings.HasPrefix(nd.Enabled, "it:"):
 		fmt.Fprintf(b, "%senabled: \"{{ %s != 'x1' }}\"\n", in, strings.TrimPrefix(nd.Enabled, "it:"))
+	case strings.HasPrefix(nd.Enabled, "it2:"):
+		v := strings.TrimPrefix(nd.Enabled, "it2:")
+		fmt.Fprintf(b, "%senabled: \"{{ %s != 'x1' && %s != 'x2' }}\"\n", in, v, v)
 	}
 	if nd.HasVar || nd.Broken {
 		fmt.Fprintf(b, "%svars:\n", in)
@@ -188,6 +191,9 @@ func (sc *scenario) expand(nd *node, prefix string, bind map[string]string, out 
 			enabled = sc.Flags[strings.TrimPrefix(nd.Enabled, "flag:")] == "true"
 		case strings.HasPrefix(nd.Enabled, "it:"):
 			enabled = b[strings.TrimPrefix(nd.Enabled, "it:")] != "x1"
+		case strings.HasPrefix(nd.Enabled, "it2:"):
+			v := b[strings.TrimPrefix(nd.Enabled, "it2:")]
+			enabled = v != "x1" && v != "x2"
 		}
 		if !enabled {
 			continue
@@ -221,7 +227,7 @@ func (sc *scenario) expand(nd *node, prefix string, bind map[string]string, out 
 func (sc *scenario) enabledExprOnIteratedRole() bool {
 	var walk func(n *node) bool
 	walk = func(n *node) bool {
-		if n.List != "" && (strings.HasPrefix(n.Enabled, "it:") || strings.HasPrefix(n.Enabled, "flag:")) {
+		if n.List != "" && (strings.HasPrefix(n.Enabled, "it") || strings.HasPrefix(n.Enabled, "flag:")) {
 			return true
 		}
 		for _, k := range n.Kids {
@@ -358,7 +364,7 @@ func body(c *hk.Ctx) {
 			sig := "tree-differs-from-reference:" + name
 			if sc.enabledExprOnIteratedRole() {
 				sig = "enabled-expression-on-iterated-role"
-			} else if strings.Contains(sc.Template, "for:") && len(l.paths) > len(ref.paths) && subsetOf(ref.paths, l.paths) {
+			} else if len(l.paths) > len(ref.paths) && subsetOf(ref.paths, l.paths) && sc.extrasHoldIterators(ref.paths, l.paths) {
 				sig = "aggregator-holding-only-an-empty-iterator-kept"
 			}
 			c.Violate("pruning-and-expansion", sig, "loaded tree (switches %s) has roles\n%v\nthe reference expansion (disabled roles and emptied aggregators absent, one child per range element in order) gives\n%v", name, l.paths, ref.paths)
@@ -394,6 +400,52 @@ func body(c *hk.Ctx) {
 	}
 	_ = time.Second
 	_ = simrt.Yield
+}
+
+// extrasHoldIterators: every role present in the loaded tree but not in the reference is an
+// aggregator that has (in the template) an iterated child, or lies below such an aggregator.
+func (sc *scenario) extrasHoldIterators(ref, got []string) bool {
+	in := map[string]bool{}
+	for _, p := range ref {
+		in[p] = true
+	}
+	byName := map[string]*node{}
+	var index func(n *node)
+	index = func(n *node) {
+		byName[n.Name] = n
+		for _, k := range n.Kids {
+			index(k)
+		}
+	}
+	for _, n := range sc.Tree {
+		index(n)
+	}
+	for _, p := range got {
+		if in[p] {
+			continue
+		}
+		last := p[strings.LastIndex(p, ".")+1:]
+		if i := strings.Index(last, "-"); i > 0 {
+			last = last[:i]
+		}
+		n := byName[last]
+		if n == nil {
+			return false
+		}
+		var hasIter func(x *node) bool
+		hasIter = func(x *node) bool {
+			for _, k := range x.Kids {
+				if k.List != "" || hasIter(k) {
+					return true
+				}
+			}
+			return false
+		}
+		if !hasIter(n) {
+			return false
+		}
+	}
+	return true
 }
 
 func subsetOf(a, b []string) bool {
